@@ -303,6 +303,9 @@ private:
 
 template <typename Fn>
 int replay_main(std::istream &in, Fn &&run) {
+    // scripts are large (hundreds of MB in thorough tiers) and are read through std::cin; all output goes through stdio
+    std::ios::sync_with_stdio(false);
+    std::cin.tie(nullptr);
     Result r;
     Scenario sc;
     // per-scenario watchdog: a scenario that does not finish (a thread of the implementation blocked in a real,
